@@ -337,6 +337,14 @@ func c16Job(shard, nshards int, tier string) Job {
 					starts = append(starts, start{name: "pod event: db (ns1) gets its address", pods: replace("db", "db-noip"), pols: pl,
 						events: []c15Event{{Kind: "pod-update", Pod: pwPodMenu["db"], Old: pwPodMenu["db-noip"]}}})
 				}
+				for _, pn := range []string{"web", "db"} {
+					if has(pn) {
+						// a pod leaves and returns under its name with its address (what a handler remembers of the first one must
+						// not stand in for the rules of the second)
+						starts = append(starts, start{name: "pod events: " + pn + " is deleted and re-created with its address", pods: ps, pols: pl,
+							events: []c15Event{{Kind: "pod-delete", Pod: pwPodMenu[pn]}, {Kind: "pod-update", Pod: pwPodMenu[pn], Old: pwPodMenu[pn]}}})
+					}
+				}
 				starts = append(starts, start{name: "pod event: a pod of ns2 on another node is deleted", pods: append(append([]string{}, ps...), "ghost2"), pols: pl,
 					events: []c15Event{{Kind: "pod-delete", Pod: pwPodMenu["ghost2"]}}})
 				if has("db-plain") {
